@@ -215,9 +215,12 @@ func (f *cronFake) GetRecentHistory(*dag.DAG, int) []*model.StatusFile {
 	f.unexpected("GetRecentHistory")
 	return nil
 }
-func (f *cronFake) UpdateStatus(*dag.DAG, *model.Status) error { f.unexpected("UpdateStatus"); return nil }
-func (f *cronFake) UpdateDAG(string, string) error             { f.unexpected("UpdateDAG"); return nil }
-func (f *cronFake) DeleteDAG(string, string) error             { f.unexpected("DeleteDAG"); return nil }
+func (f *cronFake) UpdateStatus(*dag.DAG, *model.Status) error {
+	f.unexpected("UpdateStatus")
+	return nil
+}
+func (f *cronFake) UpdateDAG(string, string) error { f.unexpected("UpdateDAG"); return nil }
+func (f *cronFake) DeleteDAG(string, string) error { f.unexpected("DeleteDAG"); return nil }
 func (f *cronFake) GetAllStatus() ([]*client.DAGStatus, []string, error) {
 	f.unexpected("GetAllStatus")
 	return nil, nil, nil
@@ -226,9 +229,15 @@ func (f *cronFake) GetAllStatusPagination(dags.ListDagsParams) ([]*client.DAGSta
 	f.unexpected("GetAllStatusPagination")
 	return nil, &client.DagListPaginationSummaryResult{}, nil
 }
-func (f *cronFake) GetStatus(string) (*client.DAGStatus, error) { f.unexpected("GetStatus"); return nil, nil }
-func (f *cronFake) ToggleSuspend(string, bool) error            { f.unexpected("ToggleSuspend"); return nil }
-func (f *cronFake) GetTagList() ([]string, []string, error)     { f.unexpected("GetTagList"); return nil, nil, nil }
+func (f *cronFake) GetStatus(string) (*client.DAGStatus, error) {
+	f.unexpected("GetStatus")
+	return nil, nil
+}
+func (f *cronFake) ToggleSuspend(string, bool) error { f.unexpected("ToggleSuspend"); return nil }
+func (f *cronFake) GetTagList() ([]string, []string, error) {
+	f.unexpected("GetTagList")
+	return nil, nil, nil
+}
 
 var _ client.Client = (*cronFake)(nil)
 
@@ -411,12 +420,12 @@ func genCronFile(r *rand.Rand, i int) *cronFile {
 
 type cronHarness struct {
 	tickHung bool
-	dir   string
-	fake  *cronFake
-	files map[string]*cronFile
-	sched *scheduler.Scheduler
-	done  chan any
-	lg    logger.Logger
+	dir      string
+	fake     *cronFake
+	files    map[string]*cronFile
+	sched    *scheduler.Scheduler
+	done     chan any
+	lg       logger.Logger
 }
 
 const cronCreatedBy = "created by github.com/ErdemOzgen/blackdagger/internal/scheduler."
@@ -740,7 +749,9 @@ type cronWindow struct {
 func cronPlan(r *rand.Rand, files []*cronFile, budget int) []cronWindow {
 	var ws []cronWindow
 	base := time.Date(2026+r.Intn(10), time.Month(1+r.Intn(12)), 1+r.Intn(28), r.Intn(24), r.Intn(60), 0, 0, time.UTC)
-	add := func(t time.Time, n int, why string) { ws = append(ws, cronWindow{Start: t.Truncate(time.Minute), Ticks: n, Why: why, Restart: true}) }
+	add := func(t time.Time, n int, why string) {
+		ws = append(ws, cronWindow{Start: t.Truncate(time.Minute), Ticks: n, Why: why, Restart: true})
+	}
 	// a whole day (or more) of consecutive minutes
 	add(base, budget/3, "consecutive minutes")
 	// windows aimed at the sparse expressions of this set
@@ -936,14 +947,15 @@ func c09Set(c *core.Ctx, idx int, watcher bool) {
 		}
 		c.Sig(idx, wi, w.Start.Unix())
 		if watcher {
-			// every pending change must have been reflected
+			// every pending change must get the chance to show: keep ticking until each is
+			// reflected; judge() raises watcher-stale when, more than 10 s after the change,
+			// a tick shows behaviour that only the previous content explains
 			for _, f := range files {
 				if f.prev == nil || !cronDiffers(f) {
 					f.prev = nil
 					continue
 				}
-				deadline := f.prevSince.Add(10 * time.Second)
-				for f.prev != nil && time.Now().Before(deadline) {
+				for n := 0; f.prev != nil && n < 700 && len(seen) == 0; n++ {
 					time.Sleep(20 * time.Millisecond)
 					pre := h.snapshot()
 					calls, ok := h.tick(m, m)
@@ -960,8 +972,8 @@ func c09Set(c *core.Ctx, idx int, watcher bool) {
 					}
 					m = h.sched.VerifNextTick(m)
 				}
-				if f.prev != nil && cronDiffers(f) {
-					violate(cronVerdict{"watcher-stale|" + f.Spec.Kind, fmt.Sprintf("10 s after %s was changed while the daemon runs its new content is still not scheduled (new: %+v, old: %+v)", f.Name, f.Spec, f.prev), f.Name}, m, w)
+				if f.prev != nil {
+					c.Count("watcher_changes_without_a_distinguishing_tick", 1)
 				}
 				f.prev = nil
 			}
@@ -1105,6 +1117,6 @@ func init() {
 				{Name: "race", Mode: "watcher", Race: true, Shards: 8, Timeout: 40 * time.Minute},
 			}
 		},
-		Rule: "Real scheduler.New(cfg, logger, fake) over a generated DAGs directory (3-10 files: single / list / overlapping list / start-stop-restart map schedules, suspended, no schedule, invalid YAML, invalid cron, loader-hostile documents, non-DAG extensions; expressions from the 5-field grammar: lists, ranges, steps, a/n, month and weekday names, day-of-month OR day-of-week, never-coming dates, leap day, month and year ends). Each set is ticked minute by minute (VerifTick) through windows: a long run of consecutive minutes, windows aimed at a match of every sparse expression of the set, calendar corners (31 Dec, 28/29 Feb of leap and non-leap years, 30/31 of a month), random minutes 2026-2036; every window is a new daemon (restart), some restart inside the previous daemon's last minute; stalls make ticks late and bunched (the fake's wall clock runs ahead of the tick minute). A recording fake of client.Client is the ground truth for running / last start (Start becomes visible only when the tick is otherwise quiescent, like a process spawn) and emulates runs of 0-30 ticks, stops and restarts; prior histories at daemon start: none / older / still running / started in the first tick's minute. A tick is complete when every goroutine created by the scheduler package for it is gone or parked in the fake's Start (goroutine dump, no sleeps). Oracle per (file, tick minute m), with an independent cron evaluator (own parser, direct calendar evaluation, no next-time search): exactly one Start iff some start expression matches m and the DAG is not suspended, not running, and its latest run did not start in or after m; otherwise none; Stop iff a stop expression matches and the DAG runs; Restart iff a restart expression matches (stop/restart of suspended DAGs not judged); no call ever for unloadable / non-DAG files. Watcher pass: files are added, edited (every minute <-> never), removed, broken while the directory watcher runs; until 10 s after a change either content is accepted, afterwards only the new one. Non-trivial = each window of each set (signature set,window,start); evaluations = ticks.",
+		Rule:        "Real scheduler.New(cfg, logger, fake) over a generated DAGs directory (3-10 files: single / list / overlapping list / start-stop-restart map schedules, suspended, no schedule, invalid YAML, invalid cron, loader-hostile documents, non-DAG extensions; expressions from the 5-field grammar: lists, ranges, steps, a/n, month and weekday names, day-of-month OR day-of-week, never-coming dates, leap day, month and year ends). Each set is ticked minute by minute (VerifTick) through windows: a long run of consecutive minutes, windows aimed at a match of every sparse expression of the set, calendar corners (31 Dec, 28/29 Feb of leap and non-leap years, 30/31 of a month), random minutes 2026-2036; every window is a new daemon (restart), some restart inside the previous daemon's last minute; stalls make ticks late and bunched (the fake's wall clock runs ahead of the tick minute). A recording fake of client.Client is the ground truth for running / last start (Start becomes visible only when the tick is otherwise quiescent, like a process spawn) and emulates runs of 0-30 ticks, stops and restarts; prior histories at daemon start: none / older / still running / started in the first tick's minute. A tick is complete when every goroutine created by the scheduler package for it is gone or parked in the fake's Start (goroutine dump, no sleeps). Oracle per (file, tick minute m), with an independent cron evaluator (own parser, direct calendar evaluation, no next-time search): exactly one Start iff some start expression matches m and the DAG is not suspended, not running, and its latest run did not start in or after m; otherwise none; Stop iff a stop expression matches and the DAG runs; Restart iff a restart expression matches (stop/restart of suspended DAGs not judged); no call ever for unloadable / non-DAG files. Watcher pass: files are added, edited (every minute <-> never), removed, broken while the directory watcher runs; until 10 s after a change either content is accepted, afterwards only the new one. Non-trivial = each window of each set (signature set,window,start); evaluations = ticks.",
 		Assumptions: []string{"the fake client is the world: a Start/Stop/Restart takes effect when the tick has otherwise settled", "time zone UTC; CRON_TZ= prefixes, descriptors and day-of-week 7 are not generated", "*/n in a day field is only generated when the other day field is *, where all cron dialects agree"}})
 }
